@@ -53,9 +53,17 @@ int valid_seteuid(object ob, string newuid) {
   return 0;
 }
 
+private int in_acl;
 private mixed path_policy(string which, string path) {
   mixed p = policy[which];
   if (p == "allow") return 1;
+  if (p == "acl") {
+    // a master that keeps its rules in a file: it reads the list (through the same file efuns) while it is being asked
+    string acl;
+    if (in_acl) return 1;
+    in_acl = 1; acl = read_file("/acl.txt"); in_acl = 0;
+    return stringp(acl) && strsrch(acl, "everything") != -1;
+  }
   if (p == "deny") return 0;
   if (p == "scratch") return (strsrch(path, "/scratch/") == 0 || strsrch(path, "scratch/") == 0) && strsrch(path, "..") == -1;
   if (stringp(p) && p[0..7] == "rewrite:") return p[8..];
